@@ -3,7 +3,7 @@ import OjgVerif.Writer.Pretty
 /-! Driver ops of the JSON writer family (C04).
 
 Trees travel in the canonical text of `JV.render`, but with the members of an object in the order
-given (it is the order the model iterates in): `n t f I(<dec>) F(<hex text>) S(<hex>) [v,…] {K(<hex>)v,…}`. -/
+given (it is the order the model iterates in): `n t f I(<dec>[:<go type>]) F(<hex text>) S(<hex>) [v,…] {K(<hex>)v,…}`. -/
 namespace OjgVerif.Writer
 open OjgVerif
 
@@ -13,7 +13,10 @@ def takeParen : List Char → List Char → Option (List Char × List Char)
   | [], _ => none
   | c :: r, acc => if c = ')' then some (acc.reverse, r) else takeParen r (c :: acc)
 
-def decOfChars (cs : List Char) : Option Int :=
+/-- `<dec>` or `<dec>:<go type>` (the type only tells the harness which Go type to build: the model
+writes an integer leaf by its value) -/
+def decOfChars (cs0 : List Char) : Option Int :=
+  let cs := cs0.takeWhile (· ≠ ':')
   match cs with
   | '-' :: r => (String.ofList r).toNat?.map fun n => - (n : Int)
   | _ => (String.ofList cs).toNat?.map fun n => (n : Int)
